@@ -94,6 +94,12 @@ def main(tier, seed):
         if tier == "thorough":
             big += [("append", [b"\x03"] * 33000), ("clear", 32760, 32780), ("reopen",), ("get", 66999), ("get", 32779)]
         hs.append(("large", big))
+        # a core over three bitfield pages whose MIDDLE page is emptied: the hole a later clear punches into the data store is
+        # bounded by the nearest held block below it, which then lives two pages further down
+        pages = [("append", [b"\x04"] * 33000), ("append", [b"\x05"] * 33100), ("clear", 32768, 65536), ("get", 32767), ("get", 65536),
+                 ("clear", 65536, 65540), ("get", 0), ("get", 100), ("get", 32767), ("get", 65540), ("get", 66099),
+                 ("reopen",), ("get", 0), ("get", 32767), ("get", 65539), ("get", 65540), ("clear", 66000, 66050), ("get", 65999), ("get", 1)]
+        hs.append(("large", pages))
         for kind, h in hs:
             res.count("hist:" + kind)
             for op in h:
